@@ -5,12 +5,16 @@
 // towards commit outcomes: transactions filled up to MaxBatchCount /
 // MaxBatchSize (ErrTxnTooBig from Set and from Commit), hot-key throttled Sets,
 // CommitWith callbacks, transactions committing while Close runs, L0 write
-// stalls; then close, reopen, a few more transactions, and a dump of all
+// stalls, and (one case in twelve) a memtable WAL whose writes start failing
+// with an injected I/O error in mid-run (judged on the live database only:
+// a commit that returned nil is visible as a whole, a commit that returned the
+// I/O error is all-or-nothing); then close, reopen, a few more transactions, and a dump of all
 // versions. Rules: R-atomic, R-fail (on the live database and after reopen),
 // R-mono (real-time order of commit calls vs commit versions, across reopen).
 package c04
 
 import (
+	"errors"
 	"fmt"
 	"runtime"
 	"strings"
@@ -18,6 +22,7 @@ import (
 	"time"
 
 	NoKV "github.com/feichai0017/NoKV"
+	"github.com/feichai0017/NoKV/vfs"
 	"verif/harness/internal/core"
 	"verif/harness/internal/dbx"
 	"verif/harness/internal/hist"
@@ -35,6 +40,11 @@ type caseCfg struct {
 	TailWriters   int        `json:"tail_writers"`
 	CloseAfter    int        `json:"close_after_tail_txns"`
 	L0Stall       bool       `json:"l0_stall"`
+	// WalFaultAt > 0: the WalFaultAt-th write/sync of a memtable WAL segment after Open and
+	// every later one fail with an injected I/O error (the device is gone); the case then
+	// judges the live database only (commits that returned nil are visible as a whole,
+	// commits that returned the error are invisible) and does not reopen.
+	WalFaultAt int `json:"wal_fault_at,omitempty"`
 }
 
 var keyPool = []string{"ka", "kb", "kc", "kd", "ke", "kf"}
@@ -93,6 +103,15 @@ func draw(c *core.Case) caseCfg {
 	cfg.CloseRace = rng.Intn(2) == 0
 	cfg.TailWriters = 2 + rng.Intn(3)
 	cfg.CloseAfter = rng.Intn(6)
+	if c.Idx%12 == 5 {
+		// I/O-fault flavour: one memtable for the whole run (a transaction that straddles a
+		// memtable switch is applied in two steps, which is a different subject), no Close race.
+		cfg.WalFaultAt = 2 + rng.Intn(24)
+		cfg.DB.MemTableSize = 4 << 20
+		cfg.DB.SyncWrites = true // every append reaches the file, so the fault surfaces in the commit that hits it
+		cfg.CloseRace = false
+		cfg.L0Stall = false
+	}
 	return cfg
 }
 
@@ -111,8 +130,33 @@ func (cfg caseCfg) options(dir string) *NoKV.Options {
 	return o
 }
 
-func open(cfg caseCfg, dir string) (*NoKV.DB, error) {
-	db, err := dbx.Open(cfg.options(dir))
+// walFault is the FaultFS hook of the I/O-fault flavour.
+type walFault struct {
+	at     int64
+	armed  atomic.Bool
+	n      atomic.Int64
+	failed atomic.Int64
+}
+
+var errInjectedIO = errors.New("injected: input/output error")
+
+func (w *walFault) hook(op vfs.Op, path string) error {
+	if !w.armed.Load() || !strings.HasSuffix(path, ".wal") || (op != vfs.OpFileWrite && op != vfs.OpFileSync) {
+		return nil
+	}
+	if w.n.Add(1) >= w.at {
+		w.failed.Add(1)
+		return errInjectedIO
+	}
+	return nil
+}
+
+func open(cfg caseCfg, dir string, wf *walFault) (*NoKV.DB, error) {
+	o := cfg.options(dir)
+	if wf != nil {
+		o.FS = vfs.NewFaultFS(vfs.OSFS{}, wf.hook)
+	}
+	db, err := dbx.Open(o)
 	if err != nil {
 		return nil, err
 	}
@@ -154,12 +198,36 @@ func run(c *core.Case) {
 	}
 
 	dir := c.TempDir()
-	db, err := open(cfg, dir)
+	var wf *walFault
+	if cfg.WalFaultAt > 0 {
+		wf = &walFault{at: int64(cfg.WalFaultAt)}
+	}
+	db, err := open(cfg, dir, wf)
 	if err != nil {
 		c.Violation("C04|open-failed|fresh", err.Error(), cfg)
 		return
 	}
 	rec := hist.NewTxnRecorder()
+	if wf != nil {
+		wf.armed.Store(true)
+		rec.RunPlans(db, "main", 0, plans, nil)
+		wf.armed.Store(false)
+		live := hist.DumpAllVersions(db, "live")
+		func() {
+			defer func() {
+				if r := recover(); r != nil {
+					c.Count("close_panics_after_io_fault", 1)
+				}
+			}()
+			if err := db.Close(); err != nil {
+				c.Count("close_errors", 1)
+			}
+		}()
+		c.Count("cases_with_wal_io_fault", 1)
+		c.Count("wal_ops_failed", int(wf.failed.Load()))
+		judge(c, cfg, rec.Txns(), live, nil, "live-after-io-fault")
+		return
+	}
 	rec.RunPlans(db, "main", 0, plans, nil)
 
 	var live *hist.Dump
@@ -192,7 +260,7 @@ func run(c *core.Case) {
 		}
 	}
 
-	db2, err := open(cfg, dir)
+	db2, err := open(cfg, dir, nil)
 	if err != nil {
 		c.Violation("C04|reopen-failed", err.Error(), map[string]any{"config": cfg})
 		return
@@ -203,7 +271,10 @@ func run(c *core.Case) {
 	layout := dbx.LayoutShape(db2)
 	_ = db2.Close()
 
-	txns := rec.Txns()
+	judge(c, cfg, rec.Txns(), final, live, layout)
+}
+
+func judge(c *core.Case, cfg caseCfg, txns []*hist.TxnRec, final, live *hist.Dump, layout string) {
 	findings, st := hist.CheckMVCC(txns, final, live, cfg.DB.DetectConflicts)
 
 	c.Count("evaluations", st.CommittedWithWrites+st.MonoPairsChecked+st.Discarded+st.Open)
@@ -233,6 +304,9 @@ func run(c *core.Case) {
 		}
 		if t.Status == hist.TxnFailed && t.ErrClass == "too-big" {
 			tooBigAtCommit++
+		}
+		if t.ErrClass == "other" {
+			c.Count("commits_with_other_error_outcome_unknown", 1)
 		}
 		if t.End == "commitwith" && t.Status == hist.TxnCommitted {
 			cbCommits++
@@ -274,6 +348,9 @@ func run(c *core.Case) {
 			continue
 		}
 		sig := "C04|" + f.Rule + "|" + f.Context
+		if cfg.WalFaultAt > 0 {
+			sig += "|wal-io-fault"
+		}
 		c.Count("findings."+f.Rule+"|"+f.Context, 1)
 		if seen[sig] {
 			continue
@@ -310,11 +387,12 @@ func init() {
 		Rule: "case = one concurrent history: 4-8 goroutines x 5-15 seeded transactions over 4-6 keys (+16 fill keys), option set drawn per case (skiplist/ART, value threshold 32/1024, MaxBatchCount 4-8 or MaxBatchSize 1.5-3KiB in 2/3 of the cases " +
 			"with 35% of the transactions filled up to the limit so ErrTxnTooBig fires in Set and in Commit, WriteHotKeyLimit 8/24, 30% CommitWith, 40% natural compaction, a few cases with the L0 write stall toggling, DetectConflicts on in 80%); " +
 			"in half of the cases 2-4 goroutines keep committing blind-write transactions while Close runs; then reopen, 3 more transactions, dump of all versions (a dump of the live DB is also taken when Close is not raced). " +
+			"One case in twelve: single memtable, SyncWrites, and from the k-th (2..25) write/sync of the memtable WAL on every such operation fails with an injected I/O error through vfs.FaultFS; that case is judged on the live dump only and not reopened. " +
 			"Oracle: R-atomic (all pending writes of a committed txn stored at one version, none of an overwritten/rejected write), R-fail (no value of a txn whose Commit / CommitWith callback reported conflict, too-big, throttled or closed, nor of a discarded one, is stored - live and after reopen), " +
 			"R-mono (Commit(A) returned before Commit(B) was called => version(A) < version(B); versions distinct; also across reopen). " +
 			"A case is non-trivial iff >=1 real-time ordered commit pair was compared and >=1 transaction failed; distinct = distinct (status, error class, #ops) sequences",
 		Assumptions: []string{
-			"only the errors named by the statement are produced (conflict, too-big, throttled, closed); any other error leaves the transaction open (all-or-nothing is still required)",
+			"besides the errors named by the statement (conflict, too-big, throttled, closed) only the injected I/O error occurs; any other error leaves the transaction open (all-or-nothing is still required)",
 			"compaction keeps every version, so the dump shows every commit version",
 			"only blind-write transactions race Close",
 		},
